@@ -26,8 +26,8 @@ MUTS = [
  ("results mapped by position over sorted field names", S,
   "            info.name: Type._from_onnx(info.type)\n            for info in typed_model.graph.output",
   "            key: Type._from_onnx(info.type)\n            for key, info in zip(sorted(self.outputs.get_vars()), typed_model.graph.output)"),
- ("unk__ dims kept as symbolic", S, 'lambda x: x.startswith("unk__")', 'lambda x: False'),
- ("only unk__0 stripped (exact match instead of prefix)", S, 'lambda x: x.startswith("unk__")', 'lambda x: x == "unk__0"'),
+ ("unk__ dims kept as symbolic", S, 'lambda x: x.startswith("unk__") and x not in given', 'lambda x: False'),
+ ("only unk__0 stripped (exact match instead of prefix)", S, 'lambda x: x.startswith("unk__") and x not in given', 'lambda x: x == "unk__0" and x not in given'),
  ("initializer values not passed", S, "            if var._value and isinstance(var._value.value, np.ndarray)\n        ]", "            if False\n        ]"),
  ("opset import of the wrong version (+1)", S, "self.op_type.domain, self.op_type.version\n", "self.op_type.domain, self.op_type.version + 1\n"),
  ("opset import of the wrong version (-1)", S, "self.op_type.domain, self.op_type.version\n", "self.op_type.domain, max(1, self.op_type.version - 1)\n"),
